@@ -66,7 +66,7 @@ def cfg_json(node, keys, root=False):
         j["omit-signing"] = True
     if c.get("haskey", True):
         j["key-name"] = c["key"]
-        j["key-id"] = hex(c["kid"])
+        j["key-id"] = core.num(c["kid"])   # the configuration reads key ids with base 0: hex, decimal, octal and binary are legal
     if c.get("alg"):
         j["alg"] = c["alg"]
     if c.get("action"):
